@@ -23,6 +23,7 @@ from pv.codec import build, Env, token, vtoken, s_scalar, s_dt, S_INTS, S_FLOATS
 
 ASSUMPTIONS = [
     'cells are None, ints, finite floats, strings, datetimes (no NaN: NaN key identity is C02 territory; no bools; no +-inf)',
+    'key columns hold -inf / +inf in a share of the cases: two ordinary, distinct keys, -inf below and +inf above every finite number (F22)',
     'ints include 2**53, 2**53+1 and -(2**53)-1 next to float(2**53) in a share of the key columns: int/float key equality of the model is exact '
     '(python ==), so 2**53 and float(2**53) are one key and 2**53+1 is another (F19: cmp used to compare ints after float())',
     'a dedicated share of tables has 200/256/300 rows, ONE key column of 2-5 distinct ints and/or floats and a non-key column with a distinct int per row '
@@ -31,10 +32,15 @@ ASSUMPTIONS = [
     '"blocks": equal keys adjacent) with a distinct int per row in one non-key column, so keys are few and groups are big; about 1-3% of the cases',
     'the table a regrouping is called on must still hold the same cells afterwards, and calling the inverse (unlist / ungroup / unpivot) a second time '
     'must give the same table again - otherwise "the original table" / "restores" would hold for the first call only',
-    'column names: single letters k,j,u,w,m,n in half of the cases, otherwise families of nested names (trade_id/trade/id/de, date/da/te/at, kkk/kk/k, '
-    'uw/u/w/uwm, n_m/n/m/nm) so that names are substrings, prefixes and suffixes of each other; never a dictable constructor parameter, the default group '
-    'column (data, columns, key, grp, index, axis), an attribute of dictable/Dict, a name starting with an underscore, or a string cell (so a pivot label '
-    'cannot overwrite an x column)',
+    'column names: single letters k,j,u,w,m,n (40%), families of nested names (trade_id/trade/id/de, date/da/te/at, kkk/kk/k, uw/u/w/uwm, n_m/n/m/nm; 40%) '
+    'so that names are substrings, prefixes and suffixes of each other, or one or two of the parameter names columns/data/key/grp/index/axis/self among '
+    'single letters (20%), as key and as non-key columns; tables are always built through the dict form dictable({name: values}), never through keywords; '
+    'never an attribute of dictable/Dict, a name starting with an underscore, or a string cell (so a pivot label cannot overwrite an x column)',
+    'pivot: the y column is never named columns or self: xyz selects rs[[y]] and dictable[[names]] goes through dictattr.__getitem__ -> type(self)(**{name: values}), '
+    'which drops a column named columns (xyz then raises KeyError) and raises TypeError on self - candidate defect, reported, kept as '
+    'replays/C11/candidate-pivot-y-named-columns.json.pending; x, z and bystander columns may carry every one of the names',
+    'a column named grp is only used with groupby(..., grp=\'g\') / ungroup(\'g\') (it would collide with the default group column); a KEY column named self is '
+    'not used with groupby: ungroup() passes the key cells as keyword arguments to Dict.__call__(self, **kwargs) and raises TypeError (minor candidate defect, reported)',
     'keys are a non-empty proper subset of the columns, spelled as *names or as one list of names (listby() with no keys and listby([]) are other contracts)',
     'key cells of the regrouped table are compared with == (the group representative of the keys 1 and 1.0 may be either); all other cells by type and value',
     '"sorted by the keys" is judged with pyg_base.cmp on the key tuples (the library-defined mixed-type order, itself the subject of C07) and, '
@@ -59,10 +65,22 @@ _FAMILIES = [['trade_id', 'trade', 'id', 'de'], ['date', 'da', 'te', 'at'], ['kk
 _ALL_NAMES = sorted(set(_COLS + [c for f in _FAMILIES for c in f]))
 
 
+# names of parameters of dictable.__init__ / Dict.__call__ / groupby and the like: a table built as type(self)(**{name: values}) instead of
+# type(self)({name: values}) loses (or misreads) such a column. Tables are always built through the dict form here.
+_CTOR_NAMES = ['columns', 'data', 'key', 'grp', 'index', 'axis', 'self']
+
+
+_BAD_Y_NAMES = ('columns', 'self')
+
+
 def _col_names(draw, ncols):
-    """half of the cases: single letters; the other half: a family of nested names first, filled up with other names"""
-    if draw(st.booleans()):
+    """40%: single letters; 40%: a family of nested names first, filled up with other names; 20%: one or two names of constructor parameters among single letters"""
+    kind = draw(st.sampled_from(['letters', 'family', 'letters', 'family', 'ctor']))
+    if kind == 'letters':
         return list(draw(st.permutations(_COLS))[:ncols])
+    if kind == 'ctor':
+        special = list(draw(st.permutations(_CTOR_NAMES))[:draw(st.sampled_from([1, 1, 2]))])
+        return list(draw(st.permutations((special + list(draw(st.permutations(_COLS))))[:ncols])))
     fam = list(draw(st.permutations(draw(st.sampled_from(_FAMILIES)))))
     rest = [c for c in draw(st.permutations(_ALL_NAMES)) if c not in fam]
     return (fam + rest)[:ncols]
@@ -79,6 +97,15 @@ def _name_classes(keys, others):
         cls.append('key_substring_of_colname')
     if any(len(c) > 1 for c in list(keys) + list(others)):
         cls.append('multichar_names')
+    if any(c in _CTOR_NAMES for c in list(keys) + list(others)):
+        cls.append('column_named_like_ctor_parameter')
+        if any(c in _CTOR_NAMES for c in others):
+            cls.append('ctor_name_nonkey')
+        if any(c in _CTOR_NAMES for c in keys):
+            cls.append('ctor_name_key')
+        for c in list(keys) + list(others):
+            if c in ('columns', 'data'):
+                cls.append('column_named_' + c)
     return cls
 
 
@@ -129,7 +156,7 @@ def _tclass(v):
         return 'num'
     if isinstance(v, str):
         return 'str'
-    return v[0]
+    return 'num' if v[0] == 'inf' else v[0]
 
 
 _LARGE_N = [64, 65, 64, 65, 100, 128, 200]        # the thresholds 64/65 twice: they are the cheapest large tables
@@ -251,6 +278,8 @@ def _key_classes(spec, by):
         cls.append('mixed_type_key')
     if any(v is None for c in by for v in spec['data'][c]):
         cls.append('none_key')
+    if any(isinstance(v, list) and v[0] == 'inf' for c in by for v in spec['data'][c]):
+        cls.append('inf_key')
     bigs = set(repr(v) for c in by for v in spec['data'][c] if isinstance(v, (int, float)) and not isinstance(v, bool) and abs(v) >= 2 ** 53)
     if bigs:
         cls.append('bigint_key')
@@ -270,7 +299,8 @@ _TWINS = st.sampled_from([1, 1.0, 2, 2.0, 0, 0.0, 2.5])
 _BIG = [2 ** 53, 2 ** 53 + 1, float(2 ** 53), -(2 ** 53) - 1]      # float() merges the first three; exact comparison does not
 _HOMOG = [st.integers(0, 2), st.sampled_from(['a', 'b', 'ab']), _TWINS, s_dt(3),
           st.one_of(st.none(), st.integers(0, 1)), st.one_of(st.sampled_from(['a', 'b']), st.integers(0, 1)),
-          st.sampled_from(_BIG), st.sampled_from(_BIG + [0, None, 'a'])]
+          st.sampled_from(_BIG), st.sampled_from(_BIG + [0, None, 'a']),
+          st.sampled_from([['inf', 1], ['inf', -1], 0, 1.0, 2 ** 53]), st.sampled_from([['inf', 1], ['inf', -1], None, 'a', -1.5])]      # +-inf: two ordinary keys (F22)
 
 
 def _cells(draw, key_like):
@@ -343,6 +373,9 @@ def _regroup_case(draw, tier, with_grp=False):
     cols = _col_names(draw, ncols)
     nby = draw(st.sampled_from([1, 1] + list(range(1, ncols))))
     by = list(draw(st.permutations(cols))[:nby])
+    if with_grp and 'self' in by:
+        # ungroup() hands the key cells over as keyword arguments: a KEY column named self cannot work there (recorded in ASSUMPTIONS)
+        by = [c for c in by if c != 'self'] or [[c for c in cols if c != 'self'][0]]
     cols = list(draw(st.permutations(cols)))
     strategies = [_cells(draw, c in by) for c in cols]
     columns = _rows(draw, strategies, 0, top)
@@ -357,7 +390,7 @@ def _regroup_case(draw, tier, with_grp=False):
         spec['by'] = by[:1]
         _numeric200(draw, spec, by[0], [c for c in cols if c not in by][0])
     if with_grp:
-        spec['grp'] = draw(st.sampled_from(['grp', 'grp', 'g']))
+        spec['grp'] = 'g' if 'grp' in cols else draw(st.sampled_from(['grp', 'grp', 'g']))     # a column named grp needs a custom group column name
     return spec
 
 
@@ -567,6 +600,13 @@ def _pivot_case(draw, tier):
     cols = _col_names(draw, nx + 2 + extra)
     cols = list(draw(st.permutations(cols)))
     x, y, z = cols[:nx], cols[nx], cols[nx + 1]
+    if y in _BAD_Y_NAMES:
+        # candidate defect (see ASSUMPTIONS): d[[names]] loses a column named columns / raises on self, and xyz selects rs[[y]]; keep those names off the y role
+        if z not in _BAD_Y_NAMES:
+            y, z = z, y
+        else:
+            x, y = [y] + x[1:], x[0]
+        cols = x + [y, z] + cols[nx + 2:]
     agg = draw(st.sampled_from(['none', 'last', 'sum', 'len', 'tuple']))
     ykind = draw(st.sampled_from(['str', 'int', 'dt', 'float', 'mixed', 'mixed']))
     ypool = draw(st.lists(_Y_KINDS[ykind], min_size=draw(st.sampled_from([1, 2, 2])), max_size=4))
@@ -748,7 +788,8 @@ SUBS = [
              'non-trivial = some key with >= 2 rows and >= 2 distinct keys',
         floor=0.2, class_floors={'mixed_type_key': 0.15, 'int_and_float_key': 0.03, 'order_visible': 0.2, 'reordered': 0.2, 'nkeys=2': 0.1, 'all_keys_unique': 0.05, 'empty': 0.005,
                                  'colname_substring_of_key': 0.08, 'colname_substring_of_single_key': 0.04, 'key_substring_of_colname': 0.08,
-                                 'rows>=64': 0.005, 'biggest_group>=16': 0.004, 'rows>=200_single_numeric_key': 0.0034, 'bigint_key': 0.03, 'bigint_key_3_spellings': 0.005, 'already_sorted_with_dups': 0.02, 'falsy_key': 0.3, 'none_key': 0.15, 'one_row': 0.01,
+                                 'rows>=64': 0.005, 'biggest_group>=16': 0.004, 'rows>=200_single_numeric_key': 0.0034, 'bigint_key': 0.03, 'bigint_key_3_spellings': 0.005, 'inf_key': 0.02,
+                                 'column_named_like_ctor_parameter': 0.08, 'ctor_name_nonkey': 0.05, 'ctor_name_key': 0.03, 'column_named_columns': 0.01, 'column_named_data': 0.01, 'already_sorted_with_dups': 0.02, 'falsy_key': 0.3, 'none_key': 0.15, 'one_row': 0.01,
                                  'by_not_in_column_order': 0.05, 'dup_in_first_group': 0.2, 'dup_in_last_group': 0.2, 'identical_rows': 0.1}),
     Sub('groupby_ungroup', lambda tier: _regroup_case(tier, with_grp=True), run_groupby, quick=4000, thorough=20000,
         rule='same tables and keys as listby_unlist, default and custom grp column name. oracle: one row per distinct key, each sub-table holds exactly '
@@ -756,7 +797,8 @@ SUBS = [
              'of rows (key cells by ==, other cells by type and value). non-trivial = some key with >= 2 rows and >= 2 distinct keys',
         floor=0.2, class_floors={'mixed_type_key': 0.15, 'single_and_multi_row_groups': 0.15, 'grp=g': 0.1, 'all_keys_unique': 0.05, 'empty': 0.005,
                                  'colname_substring_of_key': 0.08, 'colname_substring_of_single_key': 0.04, 'key_substring_of_colname': 0.08,
-                                 'rows>=64': 0.005, 'biggest_group>=16': 0.004, 'rows>=200_single_numeric_key': 0.0034, 'bigint_key': 0.03, 'bigint_key_3_spellings': 0.005, 'falsy_key': 0.3, 'none_key': 0.15, 'one_row': 0.01,
+                                 'rows>=64': 0.005, 'biggest_group>=16': 0.004, 'rows>=200_single_numeric_key': 0.0034, 'bigint_key': 0.03, 'bigint_key_3_spellings': 0.005, 'inf_key': 0.02,
+                                 'column_named_like_ctor_parameter': 0.08, 'ctor_name_nonkey': 0.05, 'ctor_name_key': 0.03, 'column_named_columns': 0.01, 'column_named_data': 0.01, 'falsy_key': 0.3, 'none_key': 0.15, 'one_row': 0.01,
                                  'by_not_in_column_order': 0.05, 'dup_in_first_group': 0.2, 'dup_in_last_group': 0.2, 'identical_rows': 0.1}),
     Sub('pivot_unpivot', lambda tier: _pivot_case(tier), run_pivot, quick=4000, thorough=20000,
         rule='non-empty tables of 1-9 rows (thorough 1-14), x = 1-2 mixed-type key columns, y = strings | ints | floats | datetimes | a mix of strings, ints and datetimes, '
@@ -766,7 +808,9 @@ SUBS = [
              'non-trivial = >= 2 x keys and >= 2 y values and (an aggregated duplicate or a None cell)',
         floor=0.2, class_floors={'dup_xy': 0.2, 'unique_xy': 0.2, 'none_cell': 0.3, 'mixed_type_key': 0.15, 'nx=2': 0.2, 'agg=none': 0.1, 'agg=last': 0.1, 'agg=sum': 0.1, 'agg=len': 0.1, 'agg=tuple': 0.1,
                                  'colname_substring_of_key': 0.08, 'key_substring_of_colname': 0.08,
-                                 'rows>=64': 0.004, 'labels>=20': 0.004, 'rows>=200_single_numeric_key': 0.0034, 'bigint_key': 0.03, 'falsy_cell': 0.08, 'falsy_key': 0.3, 'pivot_1x1': 0.03, 'one_label': 0.1, 'one_x_key': 0.05,
+                                 'rows>=64': 0.004, 'labels>=20': 0.004, 'rows>=200_single_numeric_key': 0.0034, 'bigint_key': 0.03, 'inf_key': 0.02,
+                                 'column_named_like_ctor_parameter': 0.08, 'ctor_name_nonkey': 0.05, 'ctor_name_key': 0.03, 'column_named_columns': 0.01, 'column_named_data': 0.01,
+                                 'falsy_cell': 0.08, 'falsy_key': 0.3, 'pivot_1x1': 0.03, 'one_label': 0.1, 'one_x_key': 0.05,
                                  'one_row': 0.02, 'aggform=list1': 0.1, 'aggform=list2': 0.1, 'x_not_in_column_order': 0.1,
                                  'y=str': 0.05, 'y=int': 0.05, 'y=float': 0.05, 'y=dt': 0.05, 'y=mixed': 0.1}),
 ]
